@@ -39,6 +39,10 @@ type SchedOpts struct {
 	// Focus: only sync operations issued by functions of these packages (qualified-name
 	// prefixes) are scheduling decisions; others proceed unless they would block.
 	Focus []string
+	// MaxRun: after this many consecutive default decisions for the same goroutine while
+	// others are enabled, the default choice moves to the next enabled goroutine (a
+	// deterministic fairness rule for spin / polling loops; 0 = 300).
+	MaxRun int
 	// OnQuiescent is called by the controller at every quiescent point (all goroutines
 	// parked or durably blocked), before the next decision: invariant oracles go here.
 	OnQuiescent   func(x *Exec)
@@ -140,10 +144,11 @@ func (x *Exec) Fail(key, what string) {
 
 // ParkView describes one goroutine parked at a scheduling point.
 type ParkView struct {
-	Sid  int
-	Name string
-	Op   string
-	Obj  uintptr
+	Sid     int
+	Name    string
+	Op      string
+	Obj     uintptr
+	Enabled bool
 }
 
 // Parked lists the goroutines currently parked at scheduling points.
@@ -151,7 +156,7 @@ func (x *Exec) Parked() []ParkView {
 	out := make([]ParkView, 0, len(x.parked))
 	for _, r := range x.parked {
 		sid := x.sidOf(r)
-		out = append(out, ParkView{sid, x.sidName[sid], r.Op, r.Obj})
+		out = append(out, ParkView{sid, x.sidName[sid], r.Op, r.Obj, r.Enabled == nil || r.Enabled()})
 	}
 	return out
 }
@@ -281,6 +286,11 @@ func (x *Exec) control() {
 	_ = running
 	lastSid := -1
 	idleAfterDone := 0
+	runLen := 0
+	maxRun := o.MaxRun
+	if maxRun == 0 {
+		maxRun = 300
+	}
 	for step := 0; ; step++ {
 		progress.Add(1)
 		synctest.Wait()
@@ -305,10 +315,15 @@ func (x *Exec) control() {
 				en = append(en, r)
 			}
 		}
+		keepRunning := lastSid
+		if runLen >= maxRun {
+			keepRunning = -1 // fairness: the long-running goroutine loses its default priority once
+			runLen = 0
+		}
 		sort.SliceStable(en, func(i, j int) bool {
 			si, sj := x.sidOf(en[i]), x.sidOf(en[j])
-			if (si == lastSid) != (sj == lastSid) {
-				return si == lastSid
+			if (si == keepRunning) != (sj == keepRunning) {
+				return si == keepRunning
 			}
 			return si < sj
 		})
@@ -327,7 +342,7 @@ func (x *Exec) control() {
 			return
 		}
 		pi := pointInfo{nOptions: len(opts), anyEnabled: len(en) > 0, hasT: hasT,
-			runningEnabled: len(en) > 0 && x.sidOf(en[0]) == lastSid, preemptBefore: x.preempts, earlyTBefore: x.earlyTs}
+			runningEnabled: len(en) > 0 && x.sidOf(en[0]) == keepRunning && keepRunning >= 0, preemptBefore: x.preempts, earlyTBefore: x.earlyTs}
 		choice := 0
 		idx := len(x.choices)
 		if idx < len(x.prefix) {
@@ -373,6 +388,11 @@ func (x *Exec) control() {
 				x.parked = append(x.parked[:i], x.parked[i+1:]...)
 				break
 			}
+		}
+		if op.sid == lastSid {
+			runLen++
+		} else {
+			runLen = 0
 		}
 		lastSid = op.sid
 		x.s.Release(op.req)
@@ -502,7 +522,7 @@ func Explore(t *testing.T, r *Run, o *SchedOpts) {
 		if capped {
 			return
 		}
-		if o.MaxExecutions > 0 && execs >= o.MaxExecutions {
+		if o.MaxExecutions > 0 && execs >= (o.MaxExecutions+int64(nsh)-1)/int64(nsh) {
 			capped = true
 			r.Cap(fmt.Sprintf("scenario %s: execution cap %d", o.Name, o.MaxExecutions))
 			return
@@ -511,6 +531,9 @@ func Explore(t *testing.T, r *Run, o *SchedOpts) {
 			capped = true
 			r.Cap(fmt.Sprintf("scenario %s: time budget", o.Name))
 			return
+		}
+		if os.Getenv("VERIF_ANNOUNCE") != "" {
+			Announce(fmt.Sprintf("scenario=%s prefix=%v", o.Name, prefix))
 		}
 		x := runOne(t, o, prefix, false)
 		handle(x, count)
